@@ -649,3 +649,155 @@ fn c14_hash_consistent_with_eq() {
         kani::cover!(true, "different kinds");
     }
 }
+
+// ---------------------------------------------------------------- C19: approximate equality, Display
+// The interval-level comparisons are generic in the element type, so they are decided for an element
+// type whose own comparison is an ARBITRARY relation: E carries a symbolic answer table indexed by the
+// other element's id and by the tolerance(s) passed in.  The interval-level result must be: same kind,
+// and the conjunction of the element-level answers on corresponding bounds under the SAME tolerances.
+#[derive(Clone, Copy, Debug)]
+struct E { id: u8, ans: [[[bool; 2]; 2]; 4] }   // ans[other.id][eps][second tolerance]
+#[derive(Clone, Copy, PartialEq, Debug)]
+struct Tol(u8);
+impl PartialEq for E { fn eq(&self, o: &E) -> bool { self.id == o.id } }
+impl PartialOrd for E { fn partial_cmp(&self, o: &E) -> Option<Ordering> { self.id.partial_cmp(&o.id) } }
+impl approx::AbsDiffEq for E {
+    type Epsilon = Tol;
+    fn default_epsilon() -> Tol { Tol(1) }
+    fn abs_diff_eq(&self, o: &E, eps: Tol) -> bool { self.ans[o.id as usize][eps.0 as usize][0] }
+}
+impl approx::RelativeEq for E {
+    fn default_max_relative() -> Tol { Tol(0) }
+    fn relative_eq(&self, o: &E, eps: Tol, mr: Tol) -> bool { self.ans[o.id as usize][eps.0 as usize][mr.0 as usize] }
+}
+impl approx::UlpsEq for E {
+    fn default_max_ulps() -> u32 { 7 }
+    fn ulps_eq(&self, o: &E, eps: Tol, mu: u32) -> bool { self.ans[o.id as usize][eps.0 as usize][(mu & 1) as usize] }
+}
+fn any_e(id: u8) -> E { E { id, ans: kani::any() } }
+fn any_tol() -> Tol { let t: u8 = kani::any(); kani::assume(t < 2); Tol(t) }
+// elements 0,1 bound the first interval, 2,3 the second
+fn iv_e(kind: u8, l: E, h: E) -> Interval<E> {
+    match kind { 0 => Interval::TwoSided(l, h), 1 => Interval::UpperOneSided(l), _ => Interval::LowerOneSided(h) }
+}
+// same kind and every corresponding bound related by `rel` (written from the property)
+fn boundwise_e(ka: u8, kb: u8, al: &E, ah: &E, bl: &E, bh: &E, rel: impl Fn(&E, &E) -> bool) -> bool {
+    if ka != kb { return false; }
+    match ka { 0 => rel(al, bl) && rel(ah, bh), 1 => rel(al, bl), _ => rel(ah, bh) }
+}
+#[kani::proof]
+fn c19_abs_diff_eq_boundwise() {
+    use approx::AbsDiffEq;
+    let (ka, kb) = (any_kind(), any_kind());
+    let (al, ah, bl, bh) = (any_e(0), any_e(1), any_e(2), any_e(3));
+    let (a, b) = (iv_e(ka, al, ah), iv_e(kb, bl, bh));
+    let eps = any_tol();
+    let r = a.abs_diff_eq(&b, eps);
+    assert!(r == boundwise_e(ka, kb, &al, &ah, &bl, &bh, |x, y| x.abs_diff_eq(y, eps)), "not kind-aware and bound-wise under the same tolerance");
+    if ka != kb { assert!(!r, "different kinds related"); }
+    assert!(<Interval<E> as AbsDiffEq>::default_epsilon() == E::default_epsilon());
+    kani::cover!(r && ka == 0);
+    kani::cover!(!r && ka == kb);
+}
+#[kani::proof]
+fn c19_relative_eq_boundwise() {
+    use approx::RelativeEq;
+    let (ka, kb) = (any_kind(), any_kind());
+    let (al, ah, bl, bh) = (any_e(0), any_e(1), any_e(2), any_e(3));
+    let (a, b) = (iv_e(ka, al, ah), iv_e(kb, bl, bh));
+    let (eps, mr) = (any_tol(), any_tol());
+    let r = a.relative_eq(&b, eps, mr);
+    assert!(r == boundwise_e(ka, kb, &al, &ah, &bl, &bh, |x, y| x.relative_eq(y, eps, mr)), "not kind-aware and bound-wise under the same tolerances");
+    if ka != kb { assert!(!r, "different kinds related"); }
+    assert!(<Interval<E> as RelativeEq>::default_max_relative() == E::default_max_relative());
+    kani::cover!(r && ka == 0);
+    kani::cover!(!r && ka == kb);
+}
+#[kani::proof]
+fn c19_ulps_eq_boundwise() {
+    use approx::UlpsEq;
+    let (ka, kb) = (any_kind(), any_kind());
+    let (al, ah, bl, bh) = (any_e(0), any_e(1), any_e(2), any_e(3));
+    let (a, b) = (iv_e(ka, al, ah), iv_e(kb, bl, bh));
+    let eps = any_tol();
+    let mu: u32 = kani::any();
+    let r = a.ulps_eq(&b, eps, mu);
+    assert!(r == boundwise_e(ka, kb, &al, &ah, &bl, &bh, |x, y| x.ulps_eq(y, eps, mu)), "not kind-aware and bound-wise under the same tolerances");
+    if ka != kb { assert!(!r, "different kinds related"); }
+    assert!(<Interval<E> as UlpsEq>::default_max_ulps() == E::default_max_ulps());
+    kani::cover!(r && ka == 0);
+    kani::cover!(!r && ka == kb);
+}
+// with the real f32 element: reflexive, symmetric, implied by ==, on finite bounds, default tolerances
+#[kani::proof]
+fn c19_f32_reflexive_symmetric_two_sided() {
+    use approx::{AbsDiffEq, RelativeEq, UlpsEq};
+    let (a, b): (f32, f32) = (kani::any(), kani::any());
+    kani::assume(a.is_finite() && b.is_finite());
+    let i = Interval::TwoSided(a, b);
+    let j = i;
+    assert!(i.abs_diff_eq(&j, f32::default_epsilon()), "abs_diff_eq not implied by ==");
+    assert!(i.relative_eq(&j, f32::default_epsilon(), f32::default_max_relative()), "relative_eq not implied by ==");
+    assert!(i.ulps_eq(&j, f32::default_epsilon(), f32::default_max_ulps()), "ulps_eq not implied by ==");
+    assert!(!i.abs_diff_eq(&Interval::UpperOneSided(a), f32::default_epsilon()));
+    assert!(!Interval::LowerOneSided(a).relative_eq(&Interval::UpperOneSided(a), f32::default_epsilon(), f32::default_max_relative()));
+    kani::cover!(a != b);
+}
+
+// Display: the element type's own formatting between the canonical delimiters.
+// Marker element whose Display writes exactly one known byte; fixed-capacity sink.
+#[derive(PartialEq, PartialOrd, Clone, Copy)]
+struct Mark(u8);
+impl core::fmt::Display for Mark {
+    fn fmt(&self, f: &mut core::fmt::Formatter<'_>) -> core::fmt::Result {
+        use core::fmt::Write;
+        f.write_char(if self.0 == 0 { 'a' } else { 'b' })
+    }
+}
+struct Sink { buf: [u8; 16], n: usize }
+impl core::fmt::Write for Sink {
+    fn write_str(&mut self, s: &str) -> core::fmt::Result {
+        let b = s.as_bytes();
+        let mut i = 0;
+        while i < b.len() {
+            if self.n >= 16 { return Err(core::fmt::Error); }
+            self.buf[self.n] = b[i];
+            self.n += 1;
+            i += 1;
+        }
+        Ok(())
+    }
+}
+fn rendered(i: &Interval<Mark>) -> Sink {
+    use core::fmt::Write;
+    let mut s = Sink { buf: [0; 16], n: 0 };
+    let r = write!(s, "{}", i);
+    assert!(r.is_ok());
+    s
+}
+fn expect(s: &Sink, want: &[u8]) {
+    assert!(s.n == want.len(), "rendered length differs");
+    let mut i = 0;
+    while i < want.len() { assert!(s.buf[i] == want[i], "rendered text differs"); i += 1; }
+}
+#[kani::proof]
+#[kani::unwind(12)]
+fn c19_display_two_sided() {
+    let s = rendered(&Interval::TwoSided(Mark(0), Mark(1)));
+    expect(&s, b"[a, b]");
+    kani::cover!(true);
+}
+#[kani::proof]
+#[kani::unwind(12)]
+fn c19_display_upper() {
+    let s = rendered(&Interval::UpperOneSided(Mark(0)));
+    expect(&s, b"[a,->)");
+    kani::cover!(true);
+}
+#[kani::proof]
+#[kani::unwind(12)]
+fn c19_display_lower() {
+    let s = rendered(&Interval::LowerOneSided(Mark(1)));
+    expect(&s, b"(<-,b]");
+    kani::cover!(true);
+}
